@@ -253,7 +253,7 @@ def _sharing_site(ctx, f):
                 facts, _ = ctx.ty.facts_at(f, a.id, a)
                 for fa in facts:
                     if fa.kind == "elem" and "payloads" in text(fa.value):
-                        return n, text(n)
+                        return n, None
     rets = pat.returns(f)
     return (rets[-1] if rets else f.node), "%s result" % f.name
 
